@@ -16,11 +16,11 @@ const X: TableDefinition<u64, &[u8]> = TableDefinition::new("x");
 const Y: TableDefinition<u64, &[u8]> = TableDefinition::new("y");
 const MM: MultimapTableDefinition<u64, u64> = MultimapTableDefinition::new("mm");
 
-pub const SCENARIOS: [&str; 9] = ["S1", "S2", "S3", "S3g", "S4", "S7", "S5", "S5p", "S6"];
+pub const SCENARIOS: [&str; 10] = ["S1", "S2", "S3", "S3g", "S8g", "S4", "S7", "S5", "S5p", "S6"];
 
 pub fn threads_of(scn: &str) -> usize {
     match scn {
-        "S2" | "S3" | "S3g" | "S6" => 2,
+        "S2" | "S3" | "S3g" | "S8g" | "S6" => 2,
         _ => 3,
     }
 }
@@ -330,7 +330,9 @@ fn s2(cache_idx: usize, prefix: &[usize]) -> (ExecResult, Verdict) {
 
 /// page reuse under a live reader: the writer deletes a 3-page value and then inserts another big
 /// value that reuses the pages; the reader reads the old value twice through one read transaction
-fn s3(cache_idx: usize, prefix: &[usize], gated: bool) -> (ExecResult, Verdict) {
+/// `churn`: the writer makes four commits, the first three non-durable, each rewriting the big
+/// value (insert, then remove + insert elsewhere), so unpersisted pages are freed and reused
+fn s3(cache_idx: usize, prefix: &[usize], gated: bool, churn: bool) -> (ExecResult, Verdict) {
     let (db, backend) = open_seed(cache_idx);
     let db = Arc::new(db);
     let log = Arc::new(Log::default());
@@ -338,9 +340,9 @@ fn s3(cache_idx: usize, prefix: &[usize], gated: bool) -> (ExecResult, Verdict) 
     {
         let (db, log) = (db.clone(), log.clone());
         bodies.push(Box::new(move || {
-            for i in 1..=3u64 {
+            for i in 1..=(if churn { 4u64 } else { 3u64 }) {
                 let mut wt = db.begin_write().unwrap();
-                if i == 2 {
+                if (!churn && i == 2) || (churn && i <= 3) {
                     wt.set_durability(Durability::None).unwrap();
                 }
                 {
@@ -348,6 +350,12 @@ fn s3(cache_idx: usize, prefix: &[usize], gated: bool) -> (ExecResult, Verdict) 
                     let mut y = wt.open_table(Y).unwrap();
                     if i == 1 {
                         x.remove(5).unwrap();
+                    } else if churn {
+                        // 2: insert 7; 3: remove 7, insert 8; 4: remove 8, insert 9
+                        if i > 2 {
+                            x.remove(5 + i - 1).unwrap();
+                        }
+                        x.insert(5 + i, val(100 + i, 1400).as_slice()).unwrap();
                     } else {
                         x.insert(5 + i, val(100 + i, 1400).as_slice()).unwrap();
                     }
@@ -383,14 +391,14 @@ fn s3(cache_idx: usize, prefix: &[usize], gated: bool) -> (ExecResult, Verdict) 
                     }
                 }
             };
-            let first = (big(5), big(7), big(8));
+            let first = (big(5), big(7), big(8), big(9));
             // iterate everything, then look again
             let mut cnt = 0;
             for e in x.iter().unwrap() {
                 let (_k, v) = e.unwrap();
                 cnt += v.value().len();
             }
-            let second = (big(5), big(7), big(8));
+            let second = (big(5), big(7), big(8), big(9));
             let cy = read_counter(&rt.open_table(Y).unwrap()).unwrap();
             log.0.lock().unwrap().push(Ev::Call(1, "read".into(), a, b, format!("{c},{cy},{:?},{:?},{cnt}", first, second)));
         }));
@@ -415,11 +423,13 @@ fn s3(cache_idx: usize, prefix: &[usize], gated: bool) -> (ExecResult, Verdict) 
             // payload: c,cy,(f5, f7, f8),(s5, s7, s8),cnt
             let c: i64 = p.split(',').next().unwrap().parse().unwrap();
             let cy: i64 = p.split(',').nth(1).unwrap().parse().unwrap();
-            let expect = match c {
-                0 => "(55, -1, -1)",
-                1 => "(-1, -1, -1)",
-                2 => "(-1, 102, -1)",
-                3 => "(-1, 102, 103)",
+            let expect = match (churn, c) {
+                (_, 0) => "(55, -1, -1, -1)",
+                (_, 1) => "(-1, -1, -1, -1)",
+                (_, 2) => "(-1, 102, -1, -1)",
+                (false, 3) => "(-1, 102, 103, -1)",
+                (true, 3) => "(-1, -1, 103, -1)",
+                (true, 4) => "(-1, -1, -1, 104)",
                 _ => "?",
             };
             if c != cy {
@@ -747,8 +757,9 @@ pub fn run_once(scn: &str, cache_idx: usize, prefix: &[usize]) -> (ExecResult, V
     match scn {
         "S1" => s1(cache_idx, prefix),
         "S2" => s2(cache_idx, prefix),
-        "S3" => s3(cache_idx, prefix, false),
-        "S3g" => s3(cache_idx, prefix, true),
+        "S3" => s3(cache_idx, prefix, false, false),
+        "S3g" => s3(cache_idx, prefix, true, false),
+        "S8g" => s3(cache_idx, prefix, true, true),
         "S4" => s4(cache_idx, prefix),
         "S6" => s6(cache_idx, prefix, false),
         "S7" => s6(cache_idx, prefix, true),
